@@ -551,11 +551,26 @@ func (s *epSuite) opParams() {
 		}
 	}
 	preMod, pre := s.modState(), w.Snapshot()
+	// one update in eight is followed by a failing sibling message of the same transaction (a governance proposal whose later
+	// message fails): the handler succeeds on a branch that is then discarded - nothing may remain, in the store or in memory
+	later := r.Intn(8) == 0
+	hok := false
 	out := w.Deliver(func(ctx sdk.Context) error {
 		_, err := s.ms.UpdateParams(ctx, &inflationtypes.MsgUpdateParams{Authority: auth, Params: p})
+		if err == nil && later {
+			hok = true
+			return fmt.Errorf("a later message of the transaction failed")
+		}
 		return err
 	})
-	s.emit("params", fmt.Sprintf("auth=%s %s", b01(authOK), paramsKV(p)), out, "", preMod, pre)
+	args := fmt.Sprintf("auth=%s %s", b01(authOK), paramsKV(p))
+	if later {
+		args += " later=1"
+		if hok {
+			out.Class = "later"
+		}
+	}
+	s.emit("params", args, out, "", preMod, pre)
 }
 
 func (s *epSuite) opSend() {
